@@ -34,9 +34,11 @@ pub fn eval(input: &str) -> String {
                 None => "PANIC".into(),
             }
         }
-        "R" => {
+        "R" | "Q" => {
+            // R: RaptorQ, Q: Raptor (same reconstruction of B from Z in its own codec)
             let (b, l, e) = (n(1), n(2), n(3));
-            match catch(|| raptorq_reconstruction(b as u16, l as usize, e as u16)) {
+            let raptor = t[0] == "Q";
+            match catch(|| raptorq_reconstruction(b as u16, l as usize, e as u16, raptor)) {
                 Some(Some((z, b2))) => format!("{:x} {:x}", z, b2),
                 Some(None) => "NONE".into(),
                 None => "PANIC".into(),
@@ -94,10 +96,10 @@ fn wire_lengths(b: u16, l: usize, e: u16) -> Vec<u64> {
 
 /// Run a real RaptorQ sender, take the first object packet, parse it with flute's receiver-side
 /// parser and return (Z, reconstructed B).
-fn raptorq_reconstruction(b: u16, l: usize, e: u16) -> Option<(u64, u64)> {
+fn raptorq_reconstruction(b: u16, l: usize, e: u16, raptor: bool) -> Option<(u64, u64)> {
     use flute::core::{Oti, UDPEndpoint};
     use flute::sender::{Config, ObjectDesc, Sender};
-    let oti = Oti::new_raptorq(e, b, 1, 1, 4).unwrap();
+    let oti = if raptor { Oti::new_raptor(e, b, 1, 1, 4).unwrap() } else { Oti::new_raptorq(e, b, 1, 1, 4).unwrap() };
     let cfg = Config::default();
     let ep = UDPEndpoint::new(None, "224.0.0.1".to_string(), 1234);
     let mut sender = Sender::new(ep, 1, &Oti::default(), &cfg);
@@ -127,6 +129,7 @@ fn raptorq_reconstruction(b: u16, l: usize, e: u16) -> Option<(u64, u64)> {
         let o = pkt.oti.as_ref()?;
         let z = match o.scheme_specific.as_ref()? {
             flute::verif_hooks::oti::SchemeSpecific::RaptorQ(s) => s.source_blocks_length as u64,
+            flute::verif_hooks::oti::SchemeSpecific::Raptor(s) => s.source_blocks_length as u64,
             _ => return None,
         };
         return Some((z, o.maximum_source_block_length as u64));
@@ -219,6 +222,13 @@ fn gen(args: &Args, emit: &mut dyn FnMut(String)) {
         let b = rng.range(1, 12);
         let l = rng.range(1, e * b * 6 + 3);
         emit(format!("R {:x} {:x} {:x}", b, l, e));
+    }
+    for _ in 0..rcount {
+        // Raptor refuses blocks of 2 or 3 symbols: keep B >= 4 and at least 4 symbols
+        let e = 4 * rng.range(1, 4);
+        let b = rng.range(4, 12);
+        let l = rng.range(e * 4, e * b * 6 + 3);
+        emit(format!("Q {:x} {:x} {:x}", b, l, e));
     }
 }
 
